@@ -64,6 +64,17 @@ theorem C11_parse_no_panic_wrapping (cc : CharClass) (P : Profile) (s : List Cha
     (h : P.overflowChecks = false) (w : String) : parse cc P s ≠ .panic w :=
   parseLoop_ne_panic cc P (s.length + 1) s (intSafe_of_wrapping P h s) w
 
+/-- With the proposed repair of F3 (`Profile.widthCheck`: checked accumulation, an overflowing
+width becomes an `Err`) construction never panics, in any profile and on any string. -/
+theorem C11_parse_no_panic_after_repair (cc : CharClass) (P : Profile) (s : List Char)
+    (h : P.widthCheck = true) (w : String) : parse cc P s ≠ .panic w :=
+  parseLoop_ne_panic cc P (s.length + 1) s (intSafe_of_widthCheck P h s) w
+
+/-- … and the absurd width is surfaced as an error marker, as the statement asks. -/
+theorem C11_F3_repaired_witness :
+    parse asciiClass { widthCheck := true } cs!"a{m:99999999999999999999}b" =
+      .ok [.text ['a'], .error cs!"width too large", .text ['b']] := by rfl
+
 /-- F3 witness: `{m:99999999999999999999}` panics in `Parser::integer` under overflow checks
 (the profile of the test-suite and of the harness). -/
 theorem C11_F3_witness_panics :
